@@ -713,6 +713,8 @@ pub fn block_version(coin: Coin) -> BS<u32> {
             2 => th..=0x7fff_ffffu32,
             1 => 0x8000_0000u32..=u32::MAX,
             1 => 0u32..th,
+            // structured versions: a 3-bit top pattern (BIP9's 001 among them) over a low part below, at or just above the threshold
+            2 => (0u32..8, prop_oneof![2 => 0u32..th, 1 => Just(0u32), 1 => Just(th - 1), 1 => Just(th), 2 => th..2 * th]).prop_map(|(top, low)| (top << 29) | low),
         ].boxed(),
         None => prop_oneof![
             4 => prop_oneof![Just(1u32), Just(2u32), Just(4u32), Just(0x2000_0000u32)],
